@@ -135,7 +135,61 @@ type scenario struct {
 	DieAt   int    `json:"dieAt"`
 	DieHow  string `json:"dieHow"` // "close" | "corrupt"
 	Shuffle int64  `json:"shuffle"`
+	// Real: the peer is the real rpc.Server in front of a scripted DataProcessor (the replica's side
+	// of the connection): it serves one frame at a time, so the rules are reply / error / stall only
+	Real bool `json:"real,omitempty"`
 }
+
+// scriptDP is the scripted DataProcessor behind the real rpc.Server.  The server hands requests
+// over in arrival order and the client numbers its frames from 1, so the arrival number stands for
+// the frame's sequence number in the PeerRecv / PeerSend records.
+type scriptDP struct {
+	sc       *scenario
+	tr       *tracer
+	arrivals int
+	release  chan struct{}
+}
+
+func (d *scriptDP) serve(typ int, off, size int64, data []byte, fill []byte) error {
+	select {
+	case <-d.release: // the execution is over (frames that queued up behind a stalled request)
+		return fmt.Errorf("released")
+	default:
+	}
+	d.arrivals++
+	n := d.arrivals
+	d.tr.emit("PeerRecv", map[string]interface{}{"fseq": n, "type": typ, "off": off, "size": size,
+		"dlen": len(data), "stamp": stamp(data), "magic": magic, "n": n})
+	rule := peerRule{Action: "reply"}
+	if n <= len(d.sc.Rules) {
+		rule = d.sc.Rules[n-1]
+	}
+	switch rule.Action {
+	case "error":
+		d.tr.emit("PeerSend", map[string]interface{}{"fseq": n, "kind": "error", "stamp": 0})
+		return fmt.Errorf("scripted failure")
+	case "stall":
+		<-d.release
+		return fmt.Errorf("released")
+	}
+	for i := range fill {
+		fill[i] = payloadFor(off)
+	}
+	d.tr.emit("PeerSend", map[string]interface{}{"fseq": n, "kind": "reply", "stamp": stamp(fill)})
+	return nil
+}
+func (d *scriptDP) ReadAt(b []byte, off int64) (int, error) {
+	return len(b), d.serve(tRead, off, int64(len(b)), nil, b)
+}
+func (d *scriptDP) WriteAt(b []byte, off int64) (int, error) {
+	return len(b), d.serve(tWrite, off, int64(len(b)), b, nil)
+}
+func (d *scriptDP) Sync() (int, error) { return 0, d.serve(tSync, 0, 0, nil, nil) }
+func (d *scriptDP) Unmap(off, length int64) (int, error) {
+	return 0, d.serve(tUnmap, off, length, nil, nil)
+}
+func (d *scriptDP) PingResponse() error { return d.serve(tPing, 0, 0, nil, nil) }
+func (d *scriptDP) Close() error        { return nil }
 
 func payloadFor(off int64) byte { return byte(1 + (off/512)%250) }
 
@@ -156,6 +210,7 @@ func runScenario(sc scenario, tr *tracer) {
 	defer l.Close()
 	rng := rand.New(rand.NewSource(sc.Shuffle))
 	peerDone := make(chan struct{})
+	release := make(chan struct{})
 	go func() {
 		defer close(peerDone)
 		conn, err := l.Accept()
@@ -163,6 +218,11 @@ func runScenario(sc scenario, tr *tracer) {
 			return
 		}
 		defer conn.Close()
+		if sc.Real {
+			dp := &scriptDP{sc: &sc, tr: tr, release: release}
+			rpc.NewServer(conn, dp).Handle()
+			return
+		}
 		var wmu sync.Mutex
 		held := []*frame{}
 		arrivals := 0
@@ -330,6 +390,7 @@ loop:
 		}
 	}
 	tr.emit("End", map[string]interface{}{"notified": tokens})
+	close(release)
 	conn.Close()
 	<-peerDone
 }
@@ -368,6 +429,16 @@ func genScenario(id int, rng *rand.Rand) scenario {
 			a = "stall"
 		}
 		sc.Rules = append(sc.Rules, peerRule{Action: a})
+	}
+	if rng.Intn(4) == 0 {
+		// the replica's half: the real rpc.Server (sequential; no held replies, no scripted death)
+		sc.Real = true
+		for i := range sc.Rules {
+			if sc.Rules[i].Action == "hold" {
+				sc.Rules[i].Action = []string{"reply", "reply", "error"}[rng.Intn(3)]
+			}
+		}
+		return sc
 	}
 	if rng.Intn(3) == 0 {
 		sc.DieAt = 1 + rng.Intn(cid)
